@@ -49,9 +49,10 @@ pub proof fn lemma_attrs_end_nonneg(data: Seq<u8>, p: int, k: nat)
              C('C17.skip_attributes.inv.headers', f'attrs_headers_ok({d0}, {p0} + 2, iter.index@ as nat)'),
              C('C17.skip_attributes.inv.misc', f'0 <= {p0} && {p0} + 2 <= {d0}.len() && attributes_count as int == {cnt} && {d0}.len() <= i64::MAX'),
          ])},
-         proof_before=[(r'let _attribute_name_index', f'        proof {{ lemma_attrs_end_nonneg({d0}, {p0} + 2, iter.index@ as nat); }}')],
+         proof_before=[(r'^\s*Ok\(\(\)\)', f'    proof {{ lemma_attrs_end_nonneg({d0}, {p0} + 2, {cnt} as nat); }}'), (r'let _attribute_name_index', f'        proof {{ lemma_attrs_end_nonneg({d0}, {p0} + 2, iter.index@ as nat); }}')],
          ensures=[
              C('C17.skip_attributes.consumes-exactly-the-table', f'res.is_ok() ==> final(reader).pos() == attrs_end_k({d0}, {p0} + 2, {cnt} as nat)'),
+             C('C17.skip_attributes.moves-forward', f'res.is_ok() ==> final(reader).pos() >= {p0} + 2'),
              C('C17.skip_attributes.data-untouched', f'final(reader).data() == {d0}'),
              C('C17.skip_attributes.ok-iff-headers-present', f'res.is_ok() <==> ({p0} + 2 <= {d0}.len() && attrs_headers_ok({d0}, {p0} + 2, {cnt} as nat))'),
          ])
